@@ -43,6 +43,7 @@ func main() {
 	flag.Parse()
 	applyRound2Texts()
 	applyRound3Texts()
+	applyRound4Texts()
 	if *verif == "" {
 		exe, _ := os.Executable()
 		*verif = filepath.Dir(filepath.Dir(exe))
